@@ -7,34 +7,48 @@
    (ValueError for a mode that is neither netascii nor octet).
    Request handlers are abstracted to predicates on the decoded filename
    (can_handle); handler code that raises is outside this model.
+   Fault dimension: socket.sendto of a reply fails with OSError when the requester's address
+   cannot be sent to (source port 0: Linux delivers such datagrams but sendto() to port 0 is
+   EINVAL); the attempt is recorded, the exception travels to the catch-all of _run.
+   The serve loop TftpServer._run is modelled over a list of incoming datagrams (recvfrom
+   truncates to MAX_REQUEST_PACKET_SIZE = 512 bytes).
    Definitions only. *)
 From Coq Require Import String.
 From Coq Require Import List NArith ZArith Bool.
-From VF Require Import Base.Sx Tftp.Codec Tftp.Transfer.
+From VF Require Import Base.Sx Tftp.Codec Tftp.NegSpec Tftp.Transfer.
 Import ListNotations.
 Open Scope N_scope.
 
-Inductive exn := StructError | ValueError.
-Inductive res (A : Type) := Ok (a : A) | Exc (e : exn).
+(* what the port does: datagrams sent from the server socket to the requester, transfers started *)
+Inductive action :=
+| ASendError (code : N)  (* sendto(error_packet(code, ...), requester) was called *)
+| AStart (fn : str) (m : mode) (opts : list (str * str)) (handler_index : nat)
+| ALogExc                (* logger.exception in the catch-all of _run *)
+| ABad (raw : str)       (* observation only: a datagram that is no well-formed ERROR for the requester *)
+| ADead.                 (* observation only: the server did not answer the liveness probe that followed *)
+
+Inductive exn := StructError | ValueError | OSError.
+(* an exception carries what had been done before it was raised *)
+Inductive res (A : Type) := Ok (a : A) | Exc (e : exn) (done : list action).
 Arguments Ok {A}. Arguments Exc {A}.
 Definition bind {A B} (r : res A) (f : A -> res B) : res B :=
-  match r with Ok a => f a | Exc e => Exc e end.
+  match r with Ok a => f a | Exc e done => Exc e done end.
 
 (* struct.unpack_from("!H", data) *)
 Definition unpack_u16 (d : str) : res N :=
-  match d with hi :: lo :: _ => Ok (u16 hi lo) | _ => Exc StructError end.
+  match d with hi :: lo :: _ => Ok (u16 hi lo) | _ => Exc StructError [] end.
 
 Inductive opcode := OpRRQ | OpWRQ | OpDATA | OpACK | OpERROR | OpOACK.
 (* Opcode(n): the enum constructor raises ValueError for a value that is no member *)
 Definition opcode_of (n : N) : res opcode :=
   if n =? 1 then Ok OpRRQ else if n =? 2 then Ok OpWRQ else if n =? 3 then Ok OpDATA
   else if n =? 4 then Ok OpACK else if n =? 5 then Ok OpERROR else if n =? 6 then Ok OpOACK
-  else Exc ValueError.
+  else Exc ValueError [].
 
 (* protocol.decode_read_request: every failure is a ValueError (Opcode.from_bytes converts
    struct.error, TransferMode.from_str and the shape checks raise ValueError) *)
 Definition decode_read_request (d : str) : res (str * mode * list (str * str)) :=
-  match decode_rrq d with Some r => Ok r | None => Exc ValueError end.
+  match decode_rrq d with Some r => Ok r | None => Exc ValueError [] end.
 
 (* request handlers as far as the port is concerned: can_handle(filename, context) *)
 Inductive handler := HConst (b : bool) | HPrefix (p : str) | HExact (s : str).
@@ -47,50 +61,85 @@ Fixpoint starts_with (p s : str) : bool :=
 Definition can_handle (h : handler) (fn : str) : bool :=
   match h with HConst b => b | HPrefix p => starts_with p fn | HExact s => str_eqb s fn end.
 
-(* what the port does: datagrams sent from the server socket to the requester, transfers started *)
-Inductive action :=
-| ASendError (code : N)
-| AStart (fn : str) (m : mode) (opts : list (str * str)) (handler_index : nat)
-| ALogExc
-| ABad (raw : str).     (* observation only: a datagram that is no well-formed ERROR for the requester *)
+(* self._socket.sendto(error_packet(code, ...), req_addr): the call is made; it raises OSError
+   when the requester's address cannot be sent to *)
+Definition send_reply (sendable : bool) (code : N) : res (list action) :=
+  if sendable then Ok [ASendError code] else Exc OSError [ASendError code].
 
-(* _TftpReadRequest.__init__ raises ValueError for any mode but netascii and octet *)
+(* _TftpReadRequest.__init__ (runs in the request-port thread):
+   - raises ValueError for any mode but netascii and octet;
+   - validates blksize / timeout with _REGEXP_POSITIVE_INT.fullmatch and only then calls int().
+   int() is modelled pessimistically: it raises ValueError on everything but a non-empty string
+   of ASCII digits (Python accepts more: surrounding white space, '_', a sign, other digits). *)
+Definition regexp_positive_int (s : str) : bool :=
+  match s with c :: r => (49 <=? c) && (c <=? 57) && forallb is_digit r | [] => false end.
+Definition py_int (s : str) : res N :=
+  match s with
+  | [] => Exc ValueError []
+  | _ => if forallb is_digit s then Ok (digits_value s) else Exc ValueError []
+  end.
+Definition ctor_option (o : list (str * str)) (name : str) : res unit :=
+  match dict_get (lower_keys o) name with
+  | Some s => if regexp_positive_int s then bind (py_int s) (fun _ => Ok tt) else Ok tt
+  | None => Ok tt
+  end.
 Definition start_transfer (fn : str) (m : mode) (o : list (str * str)) (i : nat) : res (list action) :=
-  match m with Mail => Exc ValueError | _ => Ok [AStart fn m o i] end.
-
-(* for request_handler in self._request_handlers: ... return *)
-Fixpoint handler_loop (hs : list handler) (i : nat) (fn : str) (m : mode) (o : list (str * str))
-  : res (list action) :=
-  match hs with
-  | [] => Ok [ASendError 1]                       (* FILE_NOT_FOUND *)
-  | h :: r => if can_handle h fn then start_transfer fn m o i else handler_loop r (S i) fn m o
+  match m with
+  | Mail => Exc ValueError []
+  | _ => bind (ctor_option o (lit "blksize")) (fun _ =>
+         bind (ctor_option o (lit "timeout")) (fun _ => Ok [AStart fn m o i]))
   end.
 
-Definition process_read_request (hs : list handler) (d : str) : res (list action) :=
+(* for request_handler in self._request_handlers: ... return *)
+Fixpoint handler_loop (sendable : bool) (hs : list handler) (i : nat) (fn : str) (m : mode) (o : list (str * str))
+  : res (list action) :=
+  match hs with
+  | [] => send_reply sendable 1                   (* FILE_NOT_FOUND *)
+  | h :: r => if can_handle h fn then start_transfer fn m o i else handler_loop sendable r (S i) fn m o
+  end.
+
+Definition process_read_request (sendable : bool) (hs : list handler) (d : str) : res (list action) :=
   match decode_read_request d with
-  | Exc ValueError => Ok [ASendError 4]           (* except ValueError: ILLEGAL_OPERATION *)
-  | Exc e => Exc e
+  | Exc ValueError _ => send_reply sendable 4     (* except ValueError: ILLEGAL_OPERATION *)
+  | Exc e done => Exc e done
   | Ok (fn, m, o) =>
       match m with
-      | Mail => Ok [ASendError 4]
-      | _ => handler_loop hs O fn m o
+      | Mail => send_reply sendable 4
+      | _ => handler_loop sendable hs O fn m o
       end
   end.
 
-Definition process_request (hs : list handler) (d : str) : res (list action) :=
+Definition process_request (sendable : bool) (hs : list handler) (d : str) : res (list action) :=
   if (List.length d <? 2)%nat then Ok [] else
   bind (unpack_u16 d) (fun n =>
   match opcode_of n with
-  | Exc ValueError => Ok []                       (* except ValueError: unknown opcode ignored *)
-  | Exc e => Exc e
-  | Ok OpRRQ => process_read_request hs d
-  | Ok OpWRQ => Ok [ASendError 2]                 (* ACCESS_VIOLATION *)
-  | Ok _ => Ok [ASendError 4]                     (* ILLEGAL_OPERATION *)
+  | Exc ValueError _ => Ok []                     (* except ValueError: unknown opcode ignored *)
+  | Exc e done => Exc e done
+  | Ok OpRRQ => process_read_request sendable hs d
+  | Ok OpWRQ => send_reply sendable 2             (* ACCESS_VIOLATION *)
+  | Ok _ => send_reply sendable 4                 (* ILLEGAL_OPERATION *)
   end).
 
-(* TftpServer._run: `except Exception: logger.exception(...)` *)
-Definition serve_one (hs : list handler) (d : str) : list action :=
-  match process_request hs d with Ok a => a | Exc _ => [ALogExc] end.
+(* one iteration of TftpServer._run: `except Exception: logger.exception(...)`, then the loop goes on *)
+Definition serve_one (sendable : bool) (hs : list handler) (d : str) : list action :=
+  match process_request sendable hs d with Ok a => a | Exc _ done => done ++ [ALogExc] end.
+
+(* TftpServer._run over the datagrams that arrive: (requester can be replied to, datagram).
+   [break_on_oserror] is NOT what the code does; it is the behaviour of a loop that treats an
+   OSError from anywhere in the iteration as a dead server socket. *)
+Definition MAX_REQUEST_PACKET_SIZE : nat := 512.
+Fixpoint run_loop (break_on_oserror : bool) (hs : list handler) (reqs : list (bool * str)) : list (list action) :=
+  match reqs with
+  | [] => []
+  | (sendable, d) :: r =>
+      let d' := firstn MAX_REQUEST_PACKET_SIZE d in
+      match process_request sendable hs d' with
+      | Ok a => a :: run_loop break_on_oserror hs r
+      | Exc OSError done => if break_on_oserror then [done ++ [ALogExc]]
+                            else (done ++ [ALogExc]) :: run_loop break_on_oserror hs r
+      | Exc _ done => (done ++ [ALogExc]) :: run_loop break_on_oserror hs r
+      end
+  end.
 
 (* ---------- specification of the port (property C09, first sentence) ---------- *)
 Fixpoint first_accepting (hs : list handler) (i : nat) (fn : str) : option nat :=
@@ -132,6 +181,7 @@ Definition action_eqb (a b : action) : bool :=
   | AStart f m o i, AStart f' m' o' i' => str_eqb f f' && (mode_num m =? mode_num m') && opts_eqb o o' && Nat.eqb i i'
   | ALogExc, ALogExc => true
   | ABad r, ABad r' => str_eqb r r'
+  | ADead, ADead => true
   | _, _ => false
   end.
 Fixpoint actions_eqb (a b : list action) : bool :=
@@ -141,8 +191,25 @@ Fixpoint actions_eqb (a b : list action) : bool :=
   | _, _ => false
   end.
 
-Definition port_holds (hs : list handler) (d : str) (obs : list action) : list string :=
-  (if existsb (fun a => match a with ALogExc => true | _ => false end) obs
-   then ["C09:internal_error_path"%string] else []) ++
-  (if (2 <=? List.length obs)%nat then ["C09:port_more_than_one_reaction"%string] else []) ++
-  (if actions_eqb obs (port_spec hs d) then [] else ["C09:port_reaction"%string]).
+Definition is_log (a : action) : bool := match a with ALogExc => true | _ => false end.
+Definition is_send (a : action) : bool := match a with ASendError _ => true | _ => false end.
+
+(* The property: at most one reaction as specified, the reply (if any) sent, no exception logged,
+   the server keeps serving.  When the reply cannot be sent (sendable = false) the specified
+   reaction is still that the one reply is attempted; an exception logged directly after that
+   attempt is reported under a clause of its own, any other logged exception as
+   internal_error_path. *)
+Definition is_dead (a : action) : bool := match a with ADead => true | _ => false end.
+Definition port_holds (sendable : bool) (hs : list handler) (d : str) (obs : list action) : list string :=
+  let spec := port_spec hs d in
+  let seen := filter (fun a => negb (is_dead a)) obs in           (* without the liveness verdict *)
+  let core := filter (fun a => negb (is_log a)) seen in           (* ... and without the log records *)
+  let unsendable_shape :=
+    negb sendable && existsb is_send spec && actions_eqb seen (spec ++ [ALogExc]) in
+  (if existsb is_log obs
+   then if unsendable_shape then ["C09:port_reply_unsendable_logged"%string]
+        else ["C09:internal_error_path"%string]
+   else []) ++
+  (if existsb is_dead obs then ["C09:port_stops_serving"%string] else []) ++
+  (if (2 <=? List.length core)%nat then ["C09:port_more_than_one_reaction"%string] else []) ++
+  (if actions_eqb core spec then [] else ["C09:port_reaction"%string]).
